@@ -125,12 +125,18 @@ func dumpState(p *model.DecisionMakingParams) interface{} {
 		return J{"isnil": true}
 	}
 	params := dump(p.MethodParameters)
+	ws := weightSets(params)
+	if pm, ok := params.(J); ok && len(ws) > 0 {
+		if w, ok := pm["weights"].(J); ok && len(w) > 8 { // Choquet capacity table: keep the set form only
+			pm["weights"] = J{"listed": "weightSets"}
+		}
+	}
 	return J{
 		"criteria":      dumpCriteria(p.Criteria),
 		"considered":    dumpAlts(p.ConsideredAlternatives),
 		"notConsidered": dumpAlts(p.NotConsideredAlternatives),
 		"params":        params,
-		"weightSets":    weightSets(params),
+		"weightSets":    ws,
 		"levelParams":   levelParams(params),
 	}
 }
@@ -311,7 +317,7 @@ func installHook() {
 		if r.full {
 			rec["after"] = dumpState(ev.After)
 			if ev.Kind == "bias" {
-				rec["before"] = dumpState(ev.Before)
+				// the state before this step is the `after` of the previous event (same object): not repeated
 				rec["report"] = jsonTree(ev.Report)
 			}
 		}
